@@ -5,14 +5,17 @@
 #include "nmtools/array/array/ufuncs/add.hpp"
 #include "nmtools/array/array/ufuncs/multiply.hpp"
 #include "nmtools/array/array/ufuncs/sqrt.hpp"
+#include "nmtools/array/array/matmul.hpp"
 #include "nmtools/array/ndarray.hpp"
 namespace nm = nmtools; namespace na = nm::array; namespace simd = na::simd; namespace meta = nm::meta;
 using arr1 = na::ndarray_t<nmtools_list<float>, nmtools_array<size_t,1>>;
 using arr2 = na::ndarray_t<nmtools_list<float>, nmtools_array<size_t,2>>;
 using darr2 = na::ndarray_t<nmtools_list<double>, nmtools_array<size_t,2>>;
+using carr2 = na::ndarray_t<nmtools_list<float>, nmtools_array<size_t,2>, na::resolve_stride_type_t, na::column_major_offset_t>;    // column-major storage (the SIMD matmul requires it for the rhs)
+using cdarr2 = na::ndarray_t<nmtools_list<double>, nmtools_array<size_t,2>, na::resolve_stride_type_t, na::column_major_offset_t>;
 
 template <class ctx_t>
-void drive(const arr1& a, const arr1& b, const arr2& c, const arr2& d, const darr2& e, ctx_t ctx)
+void drive(const arr1& a, const arr1& b, const arr2& c, const arr2& d, const darr2& e, const carr2& cc, const cdarr2& ce, ctx_t ctx)
 {
     auto r1 = na::sqrt(a, ctx);
     auto r2 = na::add(a, b, ctx);
@@ -23,10 +26,12 @@ void drive(const arr1& a, const arr1& b, const arr2& c, const arr2& d, const dar
     auto r7 = na::add.reduce(c, meta::ct_v<-1>, nm::None, nm::None, nm::False, ctx);
     auto r8 = na::add.outer(a, b, nm::None, ctx);
     auto r9 = na::sqrt(e, ctx);
+    auto r10 = na::matmul(c, cc, ctx); auto r11 = na::matmul(e, ce, ctx);
+    (void)r10; (void)r11;
     (void)r1; (void)r2; (void)r3; (void)r4; (void)r5; (void)r6; (void)r7; (void)r8; (void)r9;
 }
-void drive_all(const arr1& a, const arr1& b, const arr2& c, const arr2& d, const darr2& e)
+void drive_all(const arr1& a, const arr1& b, const arr2& c, const arr2& d, const darr2& e, const carr2& cc, const cdarr2& ce)
 {
-    drive(a,b,c,d,e, simd::x86_AVX);
-    drive(a,b,c,d,e, simd::x86_SSE);
+    drive(a,b,c,d,e,cc,ce, simd::x86_AVX);
+    drive(a,b,c,d,e,cc,ce, simd::x86_SSE);
 }
